@@ -13,7 +13,7 @@ CHECKS = {
                 text="Generated-input search: thousands of mutated replies per run through the real extension (all versions/security levels/operations/drivers) and libFuzzer+ASan campaigns on the decoders and the decrypt path; finds crashes, cannot prove their absence.",
                 note="Trusts the reference encoder only to produce seed replies; the oracle is just the outcome class (documented exception vs PanicException/abort/ASan report)."),
     "C02": dict(level="exploration", tech="property-based testing (Hypothesis + proptest) against an independent reference BER encoder; differential oracle on decoded Python values",
-                text="Model responses covering every value type, boundary encodings and length forms are encoded by an independent encoder and read back through the real API (and through SnmpValue::from_ber at Rust speed); equality with the documented type table. Exploration, not proof.",
+                text="Model responses covering every value type, boundary encodings and length forms are encoded by an independent encoder and read back through the real API (and through SnmpValue::from_ber at Rust speed); equality with the documented type table. Exploration, not proof. Encrypted replies carry arbitrary pad octets and, for v3, sometimes a non-empty contextName; walks through the real clients are sometimes preceded by an abandoned walk.",
                 note="Reference encoders refber.py / refenc.rs and reference crypto refusm.py (self-tested on FIPS/RFC vectors) are trusted."),
     "C03": dict(level="exploration", tech="property-based history generation (Hypothesis) with a strict independent BER decoder as oracle on every emitted datagram",
                 text="Histories of API calls over 1..3 pooled-buffer sessions; each emitted datagram must strictly decode to exactly the requested call (version, credentials, USM state, PDU type, ids, OIDs in order bound to NULL).",
@@ -25,10 +25,10 @@ CHECKS = {
                 text="Generated MIBs (prefix trees with multi-octet arcs), bases, max_repetitions, agent caps, versions and drivers; list(walk) must equal the model's subtree listing and end within |MIB|+2 requests.",
                 note="The model agent implements GetNext/GetBulk/endOfMibView/v1 noSuchName from RFC 3416; values from the C02 generator."),
     "C06": dict(level="exploration", tech="property-based hostile-agent scripts (Hypothesis) against an executable specification of the walk + invariants; step-count termination oracle; thorough tier adds bounded-exhaustive enumeration",
-                text="Reply scripts with out-of-subtree, repeated, decreasing and exception-valued varbinds followed by looping tail strategies; yields, follow-up requests and termination (by request count) must match the specification.",
+                text="Reply scripts with out-of-subtree, repeated, decreasing and exception-valued varbinds followed by looping tail strategies; yields, follow-up requests and termination (by request count) must match the specification. One OID of a script may be sent in a non-minimal (0x80-padded) encoding; then only the invariants are judged.",
                 note="Where the statement allows alternatives (stop or raise) both are accepted."),
     "C07": dict(level="exploration", tech="property-based testing (Hypothesis); oracle is the result/exception table of the property statement",
-                text="Generated replies (0..6 varbinds, value/NULL/exception mixes, duplicates, Reports, silence) through get / get_many (asking for 0..5 OIDs) on all versions and drivers; outcome compared with the documented table.",
+                text="Generated replies (0..6 varbinds, value/NULL/exception mixes, duplicates, Reports, silence) through get / get_many (asking for 0..5 OIDs) on all versions and drivers; outcome compared with the documented table. Reports carry the request's id or 2^31-1 / 0 / 1.",
                 note="Trusts the reference encoder for building replies."),
     "C08": dict(level="exploration", tech="grammar-based property testing (Hypothesis): OID strings in must-accept / must-refuse / may classes; oracle = lenient reference reader + strict reference decoder of the emitted request + echo round-trip",
                 text="Strings are fed to get / get_many / GetIter; a sent datagram must carry exactly the denoted OID in canonical form, a refusal must send nothing; valid strings round-trip through the agent's echo.",
@@ -37,16 +37,16 @@ CHECKS = {
                 text="Every datagram of generated v3 histories (varying engine id / user lengths, boots/time widths, request sizes across length-form boundaries, key types) has its HMAC-96 and flags recomputed independently. A second stage covers sessions of the real clients that install their keys after discovery.",
                 note="hashlib/hmac and refusm.py key derivation (RFC 3414 A.3 vectors checked at import)."),
     "C10": dict(level="fault_enumeration", tech="complete enumeration of the forgery class grid + property-based variation (Hypothesis); oracle = acceptance rule of the property, positive control included",
-                text="Every (digest, cipher, MAC class, flag, clear/encrypted, body, operation) combination is sent as an otherwise matching reply followed by the genuine one; forged GetResponses must be skipped, authentic ones delivered.",
+                text="Every (digest, cipher, MAC class, flag, clear/encrypted, body, operation) combination is sent as an otherwise matching reply followed by the genuine one; forged GetResponses must be skipped, authentic ones delivered. A second stage covers sessions of the real clients that install their keys after discovery (also after a failed first attempt).",
                 note="Forged replies copy user, engine id, msgID and request-id from the wire; Reports may be accepted either way."),
     "C11": dict(level="exploration", tech="property-based session histories (Hypothesis); oracle = independent pure-Python DES-CBC / AES-128-CFB decrypting every emitted message, and exact delivery of agent-encrypted replies",
                 text="Histories of sends, encrypted replies (own salts, arbitrary padding), clear Reports, time-outs and garbage on privacy sessions; each ciphertext must decrypt to exactly the expected scoped PDU plus less than one block of padding. A second stage covers sessions of the real clients that install their keys after discovery.",
                 note="refusm.py DES/AES validated on FIPS 81 / SP 800-38A / FIPS 197 vectors at import."),
     "C12": dict(level="exploration", tech="property-based testing (Hypothesis) against hashlib implementations of RFC 3414 A.2; session keys observed through MAC validity and decryptability; malformed-material grid with outcome-class oracle",
-                text="Password lengths around 2^20 and its divisors, engine ids 0..32 octets, all key types through the raw constructor, set_keys and User/*Key; malformed keys / codes / empty passwords must raise an Exception; master / localized privacy keys of 0..64 octets are aligned to the auth digest size by User() and used so.",
+                text="Password lengths around 2^20 and its divisors, engine ids 0..32 octets, all key types through the raw constructor, set_keys and User/*Key; malformed keys / codes / empty passwords must raise an Exception; master / localized privacy keys of 0..64 octets are aligned to the auth digest size by User() and used so. A second stage covers keys installed after discovery by the real clients.",
                 note="Master keys of non-standard size are legal at the Rust layer (the unit tests use them); the Python key classes pad."),
     "C13": dict(level="exploration", tech="property-based agent personalities and session histories (Hypothesis) against a model of the session's view of (engine id, boots, time)",
-                text="Discovery / given engine id x with / refresh() / none x sync / async x all security levels: every message's USM header, MAC and ciphertext must follow the model; foreign-engine replies must be dropped.",
+                text="Discovery / given engine id x with / refresh() / none x sync / async x all security levels: every message's USM header, MAC and ciphertext must follow the model; foreign-engine replies must be dropped. Histories include a first probe that is lost or answered by garbage, a foreign stray before the first Report, and replies that match in everything but the request-id.",
                 note="Localized keys are derived by the caller for the agent's engine id."),
     "C14": dict(level="exploration", tech="property-based long send sequences (Hypothesis); invariant oracle over the history of msgPrivacyParameters + leak scan of marker OIDs after reference decryption",
                 text="Sequences of up to 2000 (quick) / 10^5 (thorough) sends with interleaved receives, time-outs, boots changes and set_keys; salts must be 8 octets, advance by one, never repeat per installation; marker arcs never appear outside msgData. A second stage covers sessions of the real clients that install their keys after discovery.",
@@ -55,7 +55,7 @@ CHECKS = {
                 text="Every i64 of 1..2 (quick) / 1..3 (thorough) content octets and boundary neighbourhoods exhaustively, random i64, OIDs, OCTET STRINGs and v1/v2c/v3 request messages: encode == independent minimal encoder, decode(encode(x)) == x; scoped PDUs through the library's DES / AES encrypt -> decrypt -> decode give the PDU back, ciphertext length = reference length + < 1 block.",
                 note="Runs inside a mirror of the crate compiled from /repo/src; if the harness no longer builds the check is inconclusive (exit 2)."),
     "C16": dict(level="exploration", engine=E2, tech="metamorphic property testing (proptest) + coverage-guided fuzzing (libFuzzer/ASan): from_ber(x||s) == (s, from_ber(x)); trailing bytes and nested length overruns must be rejected",
-                text="(x, s) pairs over all decoders and SnmpValue with suffixes biased to what an over-reading decoder would swallow; whole messages with appended bytes and inner lengths raised past their parent.",
+                text="(x, s) pairs over all decoders and SnmpValue with suffixes biased to what an over-reading decoder would swallow; whole messages with appended bytes and inner lengths raised past their parent. A live part sends DES / AES replies whose encrypted payload ends 1..15 octets before the scoped PDU it declares; they must be refused.",
                 note="Only real containers are attacked; OCTET STRING payloads are opaque."),
     "C17": dict(level="exploration", tech="property-based size sweeps (Hypothesis, octet-by-octet around CAP) with dichotomy oracle + model-based testing of Buffer op sequences against a Vec model (proptest; libFuzzer/ASan)",
                 text="Requests grown to target sizes around 127/128, 255/256 and the buffer capacity on every configuration: either one strictly decodable datagram or SnmpEncodeError with nothing sent, follow-up requests unaffected; Buffer ops compared with a shadow model after every step.",
